@@ -66,6 +66,9 @@ func main() {
 		switch strings.TrimSpace(p) {
 		case "12":
 			part12(*n)
+			concurrentPairs()
+		case "12c":
+			concurrentPairs()
 		case "13":
 			part13(*n)
 		case "15":
